@@ -34,7 +34,8 @@ def sig_hash(sig: Any) -> int:
 
 class Result:
     """Outcome of executing one plan."""
-    __slots__ = ("violations", "digest", "counters", "signature", "nontrivial", "steps", "states", "skipped")
+    __slots__ = ("violations", "digest", "counters", "signature", "nontrivial", "steps", "states", "skipped",
+                 "replan")
 
     def __init__(self):
         self.violations = []      # list[Violation]
@@ -45,6 +46,7 @@ class Result:
         self.steps = 0            # logical steps (global event sequence numbers consumed)
         self.states = ()          # abstract state fingerprints reached (coverage measure only)
         self.skipped = False      # plan could not be built / reference side not comparable
+        self.replan = None        # enumerating plans: the concrete failing history, reported instead of the plan
 
 
 # -------------------------------------------------------------------------------------------- worker
@@ -95,6 +97,10 @@ def _run_chunk(args):
                 agg["error"] = {"kind": "harness-exception", "index": i, "plan": plan,
                                 "msg": traceback.format_exc()}
                 break
+            if res.replan is not None and res.violations:
+                res.replan.update({"prop": prop_id, "seed": seed, "index": i, "campaign": campaign})
+                plan = res.replan
+                res = prop.execute(plan)
             agg["runs"] += 1
             agg["steps"] += res.steps
             agg["counters"].update(res.counters)
